@@ -25,7 +25,7 @@ LEVEL = "model_checking"
 
 TIERS = {
     "quick": dict(bigint_n=60, thm=dict(V=3, ModMax=6, C=3, W=8, VW=1), cmp_c=1,
-                  sim_cases=1000, sim_depth=3, wide_cases=800, gen_procs=8, exh_depth=1, exh_full=False),
+                  sim_cases=800, sim_depth=3, wide_cases=600, gen_procs=8, exh_depth=1, exh_full=False),
     "thorough": dict(bigint_n=300, thm=dict(V=4, ModMax=12, C=4, W=14, VW=2), cmp_c=3,
                      sim_cases=24000, sim_depth=4, wide_cases=8000, gen_procs=14, exh_depth=1, exh_full=True),
 }
